@@ -43,7 +43,7 @@ CHECKS = {
    note="fidelity via projection (walker, digests); beyond 300 records pointer summaries instead of every pointer"),
  "C16": dict(level="model_checking", design="4/C16", technique="TLA+ DnsRateLimit: exhaustive MC (TLC) of check/deplete interleavings (1 and 2 handlers) + TLC trace validation (RateLimitTrace) of the real token bucket under a virtual clock, of the real cookie validation, and of floods of refused queries at the real listener",
    text="TLC proves Bound and Quiet on the bucket model (one handler; two handlers with burst H*B) and refutes the strict bound under the check/deplete race and Quiet when the minimum charge exceeds the capacity; the real bucket is flooded and left idle under a virtual clock and judged against a fixed envelope; cookies issued under 4 keys x 3 client cookies x 4 client/server addresses are presented unchanged/mangled/cross-address under (current, previous) keys and against the live keys.",
-   note="envelope 65536 tokens + 4096/s; the two-bucket limiter and the cost function are inline in the listener and bound by the service-level floods (800 queries per source at the real listener, REFUSED datagrams counted at the client, a quiet source at the end)"),
+   note="envelope 65536 tokens + 4096/s; the two-bucket limiter and the cost function are inline in the listener and bound by the service-level floods (800 queries per source at the real listener from one and from 200 source ports, REFUSED datagrams counted at the client, a quiet source at the end; the cookie exemption: a flood from the source that was issued a server cookie is answered, the same cookie from another address / mangled / without server part is limited)"),
  "C03": dict(level="model_checking", design="4/C03", technique="TLA+ DnsForward (reply assembly, MC with TLC) + TLC trace validation (ForwardTrace) of the real DnsService in a private network namespace against scripted upstreams",
    text="Every query/reply pair of the end-to-end rig is judged by TLC: id, question, QR and rcode of the client's reply and section-wise equality (record order, names expanded, types, classes, rdata; TTL only reduced, equal when uncached) with what the scripted upstream sent, both projected by an independent walker; upstream replies are generated structured messages of all rdata shapes, compressed or not, over UDP and TCP, IPv4 and IPv6 upstreams.",
    note="in-process service in a private namespace (unshare -n -m); real sockets and timers; projections by the harness"),
